@@ -7,6 +7,7 @@
 #include <boost/graph/dominator_tree.hpp>
 #include <boost/property_map/property_map.hpp>
 #include <boost/version.hpp>
+#include <limits>
 #include <unordered_map>
 
 /*
@@ -74,7 +75,10 @@ void dominator_tree(G g, typename G::node_t entry, Map &idom) {
     put(index_map, *It, j);
   }
 
-  std::vector<vertices_size_type_t> df_num(num_vertices(g), 0);
+  // Unreachable vertices must not share the DFS number of the root
+  // (boost skips them only if their number is out of range).
+  std::vector<vertices_size_type_t> df_num(
+      num_vertices(g), (std::numeric_limits<vertices_size_type_t>::max)());
   time_map_t df_num_map(make_iterator_property_map(df_num.begin(), index_map));
   std::vector<node_t> parent(num_vertices(g),
                              boost::graph_traits<G>::null_vertex());
